@@ -4337,7 +4337,8 @@ def judge_qap_run(run, plan):
                 break
         else:
             _, ctx, sid, val = em
-            k = [n for n in io_vals if n.startswith(ctx + "/o_") and io_vals[n] == val]
+            val = int(val) % Q.P          # (values are field elements, however the backend writes them down)
+            k = [n for n in io_vals if n.startswith(ctx + "/o_") and io_vals[n] % Q.P == val]
             tied = [n for n in k if " ".join(("* = 1 %s -1 %s" % (sid, n)).split()) in lines]
             if not tied:
                 yield "public_value_not_tied", {}, "public value %r of wire %s has no o_ wire with a linking equation" % (
@@ -4389,13 +4390,15 @@ def judge_qap_run(run, plan):
     ncalls = sum(1 for c in fns if c != "main" and io_by_name.get(fns[c], {True}) != {False})
     ambiguous = any(c != "main" and len(io_by_name.get(fns[c], {True})) > 1 for c in fns)   # (two bodies, one name)
     # a call whose body raised (the script caught it and went on) was entered but never tied to its caller
-    raised = 0
+    raised = other = 0
     for (site, cls, msg) in getattr(run, "caught", []):
         info = run.gen.sites.get(site, {}) if getattr(run, "gen", None) else {}
         if info.get("stmt") == "subqap_call" and cls == "AssertionError":
             raised += 1
+        elif info.get("stmt") == "subqap_call":
+            other += 1          # (failed before or inside the call - cannot be told apart: the count is not judged)
     ncalls -= raised
-    if nglue != ncalls and not ambiguous:
+    if nglue != ncalls and not ambiguous and not other:
         yield "glue_incomplete", {"what": "count"}, "%d sub-circuit calls, %d [glue] lines" % (ncalls, nglue)
 
 
@@ -4651,6 +4654,10 @@ class C12(TraceCheck):
             case["edit_fault"] = rng.choice([None, ["qapgenf", 1], ["qapgenf", 2], ["qapprove", 1]])
             case["second_run"] = False
             case["faults"] = {"bufcap": faults["bufcap"]}
+        r6 = _random.Random("huge/%s" % P.plan_digest(plan))
+        if r6.random() < 0.03:
+            # a witness value of several thousand decimal digits (a long product that nothing reduced)
+            plan["inputs"].append({"kind": "priv", "t": "I", "v": 10 ** 5000 + 3})
         r5 = _random.Random("setenv/%s" % P.plan_digest(plan))
         if r5.random() < 0.06:
             # surroundings: the program itself sets a directory variable after the import (too late to matter)
@@ -4693,6 +4700,10 @@ class C12(TraceCheck):
         write_failed = fs.fault_fired > 0
         if r1.outcome != "completed":
             probes["script_raised"] = 1
+            if not write_failed and not fired.get("toolfail") and r1.outcome.split(":")[1] not in ("OSError", "IOError") \
+                    and "Inconsistent" not in r1.outcome:      # (a checkpoint prove() reporting an inconsistency is fine)
+                # every statement of these plans catches its own errors: tracing itself must not fall over
+                add("tracing_raised", {"exc": r1.outcome.split(":")[1]}, "the traced program died: %s" % r1.outcome[:200])
         if not write_failed:
             for oracle, site, detail in judge_qap_run(r1, plan):
                 add(oracle, site, detail)
